@@ -16,7 +16,7 @@ META = {
                   "render_quoted_form / hy.eval on every generated tree on every run.",
     "level_note": "Trusted: Coq kernel; the hand-written model Quote/Model.v (render, eval of the constructor-call "
                   "fragment, constructors, float bit facts add0/f_is_zero), tied by differential execution only; "
-                  "this harness and its parser of Coq output; hy.mangle supplies the normaliser table (subject of C32).",
+                  "extraction + OCaml driver + this harness; hy.mangle supplies the normaliser table (subject of C32).",
 }
 
 TRUSTED = [
@@ -27,7 +27,7 @@ TRUSTED = [
     "/repo by differential execution on every run (rendered form and value), not verified against the source text",
     "float facts in Model.v (add0: 0 + x flips -0.0 and quiets signalling NaNs; f_is_zero) validated here on bit patterns",
     "hy.mangle(...).replace('_','-') is supplied as a table computed by the real function (mangle is C32's subject)",
-    "props/quote_common.py: dumps, Gallina term writer, parser of Coq's printed terms",
+    "extraction (ExtrOcamlBasic only) + extract/quote_driver.ml + props/quote_common.py (dumps, line protocol)",
 ]
 
 CORPUS_TEXTS = ["1-0j", "-0j", "(a -0.0j)", "-0.0", "[1-0j]", "(unquote)", "(unquote x)", "`(a ~x ~@y)", "#[x[a]b]x]",
@@ -81,7 +81,7 @@ def run(chk):
         "quote is evaluated through hy.eval in an environment that does not rebind `hy` and defines no macros",
     ]
     chk.matchers["complex_negzero_imag"] = negzero_matcher
-    chk.prove("Props/C30.v", ["Props/C30.vo"], [])
+    chk.prove("Props/C30.v", ["Props/C30.vo", "Quote/Extract.vo"], [])
     thorough = chk.tier == "thorough"
     hy = vlib.use_repo_in_process()
     from hy import models as M
@@ -110,29 +110,28 @@ def run(chk):
                 "floats by random bits incl. NaN payloads, Complex from bits and from literals with -0.0 parts, unquote/"
                 "quasiquote-headed expressions of every arity, depth <= 4) + trees read by hy.read from generated texts + "
                 "a fixed corpus; non-trivial = distinct tree with >= 3 nodes or an attribute")
-    dumps, reals, renders = [], [], []
-    symbols = set()
+    try:
+        binary = qc.build_driver()
+        chk.obligation("extracted model builds (Quote/Extract.v, extract/quote_driver.ml)", True)
+    except Exception as e:  # noqa
+        chk.obligation("extracted model builds (Quote/Extract.v, extract/quote_driver.ml)", False, str(e)[-1500:])
+        binary = None
+    dumps, reals, renders, lines = [], [], [], []
     for origin, text, m in cases:
         d = qc.dump(m)
         dumps.append(d)
+        symbols = set()
         qc.collect_symbols(d, symbols)
         res, trace, raw, exc = qc.run_quote_impl("quote", m)
         reals.append((res, trace))
         renders.append(qc.real_render(m, math.inf))
-    exprs = []
-    for d in dumps:
-        cm = qc.cmodel(d)
-        exprs.append("(wf_ctor %s, wf %s, render normf LInf %s, run_quote (list Z) (userf []) normf true %s [])"
-                     % (cm, cm, cm, cm))
-    outs = vlib.coq_eval(qc.IMPORTS, qc.norm_defs(symbols) + qc.USER_DEFS, exprs, tag="c30", shard=250)
+        lines.append(qc.encode_case("quote", qc.norm_table(symbols), {}, d))
+    outs = qc.run_model(binary, lines) if binary else [None] * len(cases)
     n_wf = 0
+    bad_instances = []
     for (origin, text, m), d, (res, trace), rr, out in zip(cases, dumps, reals, renders, outs):
-        t = qc.parse_term(out)
-        assert t[0] == "tuple" and len(t) == 5, t
-        wf_ctor, wf = qc._bool(t[1]), qc._bool(t[2])
-        m_render = qc.term_to_res(t[3], lambda p: (qc.term_to_dump(p[1]), qc._bool(p[2])))
-        mr = t[4]
-        m_run = (qc.term_to_res(mr[1]), list(qc._lst(mr[2])))
+        mo = qc.decode_quote(out) if out is not None else None
+        wf = mo["wf"] if mo else False
         inp = {"origin": origin, "text": text, "model": repr(m)}
         how = ("PYTHONPATH=%s /venv/bin/python -c 'import hy; m = %s; print(repr(hy.eval(hy.models.Expression("
                "[hy.models.Symbol(\"quote\"), m]))))'" % (vlib.REPO, ("hy.read(%r)" % text) if text is not None else
@@ -150,18 +149,26 @@ def run(chk):
                  sample={"input": text if text is not None else repr(m)[:200], "quoted_equal": res == ("Ok", d)}
                  if len(chk.samples) < 12 and nodes >= 4 else None)
         # the generated tree must be one the theorem's hypothesis describes
-        if not wf_ctor:
-            chk.disagree("wf_ctor of Quote/Model.v rejects a tree built by the constructors / the reader", inp, "wf_ctor = false", "constructed")
-        # tie T3: rendered form, and the value of the rendered form
-        if m_render != rr:
-            chk.disagree("Quote.Model.render LInf vs render_quoted_form(level=Inf)", inp, m_render, rr)
-        if m_run != (res, trace):
-            chk.disagree("Quote.Model.run_quote vs hy.eval of (quote m)", inp, m_run, (res, trace))
-        # the theorem's instance, evaluated
-        if wf and m_run != (("Ok", d), []):
-            chk.obligation("C30_quote_identity_partial instance evaluates to inj m", False, repr(inp)[:300])
+        if mo:
+            if not mo["wf_ctor"]:
+                chk.disagree("wf_ctor of Quote/Model.v rejects a tree built by the constructors / the reader", inp,
+                             "wf_ctor = false", "constructed")
+            # tie T3: rendered form, and the value of the rendered form
+            if mo["render"] != rr:
+                chk.disagree("Quote.Model.render LInf vs render_quoted_form(level=Inf)", inp, mo["render"], rr)
+            if mo["run"] != (res, trace):
+                chk.disagree("Quote.Model.run_quote vs hy.eval of (quote m)", inp, mo["run"], (res, trace))
+            # the theorem's instance, evaluated by the extracted model
+            if wf and mo["run"] != (("Ok", d), []):
+                bad_instances.append(repr(inp)[:300])
         # the property, on the real code
         if res != ("Ok", d) or trace:
             chk.fail("quote-not-identity", inp, res, ("Ok", d), how)
+    chk.obligation("every evaluated instance of C30_quote_identity_partial (wf m) gives (Ok (inj m), no user code)",
+                   not bad_instances, "; ".join(bad_instances[:3]))
     chk.extra["trees_satisfying_wf"] = n_wf
     chk.extra["trees_total"] = len(cases)
+
+
+def setup():
+    qc.build_driver()
